@@ -53,7 +53,10 @@ RULE_ADDED = (
               'Round 15: a quarter of the cells on a device to be left alone get a late answer '
               'among their first four exchanges. '
               ' '
-              'Round 16: pubkeys exports into a directory holding a longer earlier export. ')
+              'Round 16: pubkeys exports into a directory holding a longer earlier export. '
+              ' '
+              'Round 17: secret-like variables (PIN, HSM_PIN, PASSWORD ...) exported in the too'
+              "ls' environment. ")
 RULE = RULE + " " + RULE_ADDED.strip()
 ASSUMPTIONS = [
     "simulated devices (pv/simdev) trusted; operator input is scripted, an exhausted script "
